@@ -86,6 +86,12 @@ def main():
     a = args()
     items = jalali_items(a.tier) + hijri_items(a.tier)
     res = pmap(work, items, a.procs)
+    # both calendars on the same (year, month, day) in ONE process, alternating: a conversion must
+    # not depend on what the other calendar converted before (the parsers share a base class)
+    for (y, m, d) in [(1400, 5, 10), (1394, 6, 26), (1432, 9, 14), (1500, 1, 1), (1389, 1, 1)]:
+        for which in ("jalali", "hijri", "jalali", "hijri"):
+            sep = "/" if which == "jalali" else "-"
+            res.append(work((which, "%04d%s%02d%s%02d" % (y, sep, m, sep, d), y, m, d, None)))
     failures = []
     for r in res:
         if r is not None:
